@@ -753,10 +753,43 @@ pub fn bytes_strategy(_tier: Tier) -> BoxedStrategy<Case> {
     decoded_strategy(fuzz_domain)
 }
 
+const SEL: [u16; 3] = [0, 21846, 43691];
+/// history length of the bounded-exhaustive sub-check
+fn seq_len(tier: Tier) -> usize {
+    if tier == Tier::Quick {
+        4
+    } else {
+        5
+    }
+}
+/// alphabet of the bounded-exhaustive sub-check: node / edge insertion and removal at every position
+/// (selectors for the first, middle and last element) and reversal
+fn alphabet() -> Vec<Op> {
+    let mut a = vec![Op::AddNode(0), Op::Reverse];
+    for x in SEL {
+        a.push(Op::RemoveNode(x));
+        a.push(Op::RemoveEdge(x));
+        for y in SEL {
+            a.push(Op::AddEdge(0, x, y));
+        }
+    }
+    a
+}
+fn enum_count(tier: Tier) -> u64 {
+    2 * (alphabet().len() as u64).pow(seq_len(tier) as u32)
+}
+fn enum_make(tier: Tier, i: u64) -> Case {
+    let a = alphabet();
+    // every history starts from two nodes, so that the first operations have something to work on
+    let mut ops = vec![Op::AddNode(0), Op::AddNode(0)];
+    ops.extend(crate::util::digits(i / 2, a.len() as u64, seq_len(tier)).into_iter().map(|d| a[d].clone()));
+    Case { directed: i % 2 == 0, width: 2, ops }
+}
+
 pub fn property() -> Property {
     Property {
         id: "C01",
-        rule: "operation histories (<=40 ops quick / <=160 thorough) over Graph<_,_,Directed|Undirected,u8|u16|u32|usize>: add/try_add/update/try_update (valid, self-loop, parallel, absent endpoints), Build trait paths, remove_node/remove_edge (valid and absent), retain_* with mutating closures, reverse, clear*, extend_with_edges, weight writes (get_mut, IndexMut, index_twice_mut, *_weights_mut), map, filter_map (continuing on the result), clone/clone_from, into_edge_type / StableGraph / from_elements round trips, capacity calls, and bulk histories that fill a u8 graph to its 255-element limit; after every step every observable (counts, weights, endpoints, find/contains for all pairs incl. an absent index, neighbour and incident-edge lists in each direction with the documented order, edges_connecting, externals, all whole-graph iterators, detached walkers, raw linked lists) is compared with a reference multigraph; non-trivial = the history contains a renumbering removal followed by a later mutation; distinct by fingerprint of the op sequence; the *-from-bytes sub-checks feed the same interpreter with histories decoded from generated byte strings by the libFuzzer codec (all operation kinds equally likely, up to the thorough-tier length)",
+        rule: "operation histories (<=40 ops quick / <=160 thorough) over Graph<_,_,Directed|Undirected,u8|u16|u32|usize>: add/try_add/update/try_update (valid, self-loop, parallel, absent endpoints), Build trait paths, remove_node/remove_edge (valid and absent), retain_* with mutating closures, reverse, clear*, extend_with_edges, weight writes (get_mut, IndexMut, index_twice_mut, *_weights_mut), map, filter_map (continuing on the result), clone/clone_from, into_edge_type / StableGraph / from_elements round trips, capacity calls, and bulk histories that fill a u8 graph to its 255-element limit; after every step every observable (counts, weights, endpoints, find/contains for all pairs incl. an absent index, neighbour and incident-edge lists in each direction with the documented order, edges_connecting, externals, all whole-graph iterators, detached walkers, raw linked lists) is compared with a reference multigraph; non-trivial = the history contains a renumbering removal followed by a later mutation; distinct by fingerprint of the op sequence; the *-from-bytes sub-checks feed the same interpreter with histories decoded from generated byte strings by the libFuzzer codec (all operation kinds equally likely, up to the thorough-tier length); bounded-exhaustive sub-check: every history of 4 (thorough: 5) operations over a 17-operation alphabet (add node, add edge between / remove node / remove edge at the first, middle and last position, reverse) after two initial nodes, directed and undirected",
         assumptions: &[
             "edge renumbering order inside remove_node / retain_* and the indices produced by filter_map when something is removed are not documented: the model adopts the real numbering via unique tags and then checks everything else",
             "relative order of neighbours that went through filter_map / a conversion is not asserted",
@@ -764,7 +797,8 @@ pub fn property() -> Property {
         ],
         both_profiles: false,
         subs: vec![
-            sub_fuzz("graph/history", 400_000, 4_000_000, strategy, run, fuzz_domain), sub("graph/history-from-bytes", 200_000, 4_000_000, bytes_strategy, run),
+            sub_fuzz("graph/history", 400_000, 4_000_000, strategy, run, fuzz_domain),
+            sub_enum("graph/all-short-histories", enum_count, enum_make, run), sub("graph/history-from-bytes", 200_000, 4_000_000, bytes_strategy, run),
             sub("graph/u8-capacity", 12_000, 300_000, capacity_strategy, run),
         ],
     }
